@@ -1,6 +1,7 @@
-(* C18 -- The record is a faithful audit trail and all renderings agree with it: the renderings half.
-   (The audit-trail half -- first/last action, elect/defeat actions vs status changes -- is checked by the
-   trace correspondence and the oracle c18_trail.)  Statements only; every proof is [exact <lemma of
+(* C18 -- The record is a faithful audit trail and all renderings agree with it: the renderings half, and of the
+   audit-trail half the two whole-run theorems at the end of this file: the record begins with the start of the count and
+   ends with its completion, whose step shows the final statuses (every rule, arithmetic, profile, fuel).
+   (Elect/defeat actions vs status changes are checked by the trace correspondence and the oracle c18_trail.)  Statements only; every proof is [exact <lemma of
    Proofs/RecordLemmas.v>].  Model.Record is the model of record.py report/dump/json and of the rule hooks
    of rules/electionmethods.py and rules/qpq.py; it is tied to /repo by the `render` correspondence
    (harness/render_driver.py: report, dump and JSON text byte for byte).
@@ -377,3 +378,26 @@ Example C18_example_json_text :
   }
 }"%string.
 Proof. vm_compute. reflexivity. Qed.
+
+
+(* ---- WHOLE RUN, every rule and arithmetic: the record begins with the start of the count ... ----
+   In the record of a count that did not crash (actions are kept newest first) the oldest action that carries a snapshot
+   is the 'begin' action -- for Minneapolis, which logs none, the first 'round' action -- and everything older is the
+   snapshot-less log lines of the candidate roll written when the election object was built. *)
+From Droop Require Import Proofs.CmdMeta Proofs.Forward Proofs.Audit.
+Theorem C18_record_begins_with_the_start_of_the_count : forall A cfg r pr fuel s k,
+  exec (@crashed A) fuel (count_cmd A cfg r) (init_state A cfg pr) = Some (s, k) -> k <> Abort ->
+  exists l b, actions s = l ++ b :: actions (init_state A cfg pr) /\ a_tag b = begin_tag r /\ (a_snap b <> None) /\
+              NoSnapL A (actions (init_state A cfg pr)).
+Proof. exact record_begins_with_the_start. Qed.
+Print Assumptions C18_record_begins_with_the_start_of_the_count.
+
+(* ... and ends with its completion: a count that ends normally has the 'end' action "Count Complete" as its newest
+   action, and that action's snapshot shows exactly the final statuses and pending flags ([ssn] of a snapshot = [stl] of
+   the candidates: (id, status, pending) triples) and the final quota -- the winners and losers the election object reports. *)
+Theorem C18_record_ends_with_completion_showing_the_final_statuses : forall A cfg r pr fuel s,
+  exec (@crashed A) fuel (count_cmd A cfg r) (init_state A cfg pr) = Some (s, Next) ->
+  exists sn older, actions s = mkAction TEnd "Count Complete" (round s) (Some sn) :: older /\
+    ssn A sn = stl A (cands s) /\ as_quota sn = quota s.
+Proof. exact record_ends_with_completion. Qed.
+Print Assumptions C18_record_ends_with_completion_showing_the_final_statuses.
